@@ -56,6 +56,8 @@ def judge(exp, obs):
     redirect = 300 <= obs["st"] <= 399
     if exp["mode"] == "exact":
         return obs["st"] == exp["st"] and obs["loc"] == exp["loc"]
+    if exp["mode"] == "noredirect":
+        return not redirect
     if exp["mode"] == "safe":
         return not (redirect and obs["loc"] == exp["loc"])       # emitted exactly the Location TLC marked unsafe
     return True
@@ -131,7 +133,7 @@ def run(ctx):
             raise framework.Machinery("vacuity: expectation modes %r" % modes)
         ctx.replay(paths, replayer, nontrivial=lambda e, p: len(p[0]["args"][1]) > 1)
         ctx.cov["exhaustive"] = True
-        sims = ctx.sim_paths("webstatic", "Gen_SlashRedirect", "Gen_SlashRedirect.cfg", num=ctx.pick(100, 1500), depth=7)
+        sims = ctx.sim_paths("webstatic", "Gen_SlashRedirect", "Gen_SlashRedirect.cfg", num=ctx.pick(40, 600), depth=7)
         ctx.replay(sims, replayer, label="s2c-sim")
         ctx._phase("mc+s2c", t0)
         t0 = time.time()
